@@ -194,8 +194,13 @@ Proof.
     destruct (redraw_into_sup st (set_curpos c1 (sCurX st) (sCurY st)) _ HW HH Ha) as [Hb _].
     split; [exact Hb|]. apply redraw_into_in; try assumption. apply redraw_into_in; assumption. }
   destruct HU3c as [HU3c HU3cin].
-  assert (HU4 : WF (coalesce st U3c) /\ forall x y, rgn_mem (coalesce st U3c) x y = true -> inS (sW st) (sH st) x y).
-  { unfold coalesce. destruct ((sMaxRects st >? 0) && (rgn_count U3c >? sMaxRects st)); [|auto].
+  assert (HU4 : WF (coalesce16 st (rgn_count UC) U3c) /\
+                forall x y, rgn_mem (coalesce16 st (rgn_count UC) U3c) x y = true -> inS (sW st) (sH st) x y).
+  { assert (HU4a : WF (coalesce st U3c) /\ forall x y, rgn_mem (coalesce st U3c) x y = true -> inS (sW st) (sH st) x y).
+    { unfold coalesce. destruct ((sMaxRects st >? 0) && (rgn_count U3c >? sMaxRects st)); [|auto].
+      split; [wf|]. apply bbox_inside; assumption. }
+    destruct HU4a as [Ha Hb]. unfold coalesce16. cbv zeta.
+    destruct (rgn_count UC + rgn_count (coalesce st U3c) + 6 >=? 65535); [|auto].
     split; [wf|]. apply bbox_inside; assumption. }
   destruct HU4 as [HU4 HU4in].
   rewrite Hpw, Hph.
@@ -248,7 +253,7 @@ Proof.
   assert (HU3 : WF U3) by (unfold U3; wf).
   destruct (soft_cursor st _ U3) as [c2 U3c] eqn:Esoft.
   destruct (soft_cursor_spec _ _ _ _ _ HW HH HU3 Esoft) as (HU3c & _).
-  destruct (coalesce_spec st U3c HU3c) as [HU4 _].
+  destruct (coalesce16_spec st (rgn_count UC) U3c HU3c) as [HU4 _].
   match type of Hs with (if ?cond then _ else _) = _ => destruct cond eqn:Echeck end; [|discriminate].
   inversion Hs; subst c' n rects. clear Hs.
   apply andb_true_iff in Echeck. destruct Echeck as [Echeck E4].
@@ -355,7 +360,7 @@ Lemma size_first st w h bpp seed c :
   let c1 := newfb_client w h c in
   exists c2,
     send_client st' c1 =
-      Some (c2, Some (1, [if cUseExt c then WExt (cReqChange c) (cLastErr c) w h else WNewFB w h])) /\
+      Some (c2, Some (1, [if cUseExt c then WExt (cReqChange c mod 65536) (cLastErr c mod 65536) w h else WNewFB w h])) /\
     (negb (rgn_is_empty (cR c1)) = true -> xDefer (sExt st) = 0 -> tick_client st' c1 = send_client st' c1) /\
     cNewFBPending c2 = false /\ cPW c2 = w /\ cPH c2 = h /\
     cM c2 = rgn_create_rect 0 0 w h /\ cC c2 = rgn_empty /\ cR c2 = cR c /\
@@ -451,7 +456,7 @@ Qed.
 Lemma setdesktop_refusal_sent st hookres c :
   hookres <> 0 -> cUseExt c = true -> cUseNewFB c = true -> cScaled c = None ->
   exists c2, send_client st (setdesktop_one true hookres c) =
-             Some (c2, Some (1, [WExt c16_reason_client hookres (sW st) (sH st)])) /\
+             Some (c2, Some (1, [WExt c16_reason_client (hookres mod 65536) (sW st) (sH st)])) /\
              cNewFBPending c2 = false /\ cReqChange c2 = 0 /\ cLastErr c2 = 0.
 Proof.
   intros Hh He Hu Hsc. unfold setdesktop_one. replace (hookres =? 0) with false by lia.
